@@ -107,6 +107,7 @@ class Subst:
         m = {}
         dropped = []
         nslack = [0]
+        s._contra = False
 
         def slack():
             nslack[0] += 1
@@ -134,6 +135,9 @@ class Subst:
         for kind, g0, why in ges:
             g = Subst._apply(m, g0)
             if not g.t or all(c >= 0 for c in g.t.values()):
+                continue
+            if all(c <= 0 for c in g.t.values()) and g.cval() < 0:
+                s._contra = True          # g >= 0 is impossible: the path is infeasible
                 continue
             cands = []
             for mono, c in g.t.items():
@@ -167,6 +171,19 @@ class Subst:
         return s._solved
     def apply(s, p):
         return Subst._apply(s.solve()[0], p)
+    def contradictory(s):
+        s.solve()
+        if s._contra:
+            return True
+        # a second pass: facts applied under the final substitution
+        m = s._solved[0]
+        for kind, g0, why in s.facts:
+            g = Subst._apply(m, g0)
+            if kind == "ge" and g.t and all(c <= 0 for c in g.t.values()) and g.cval() < 0:
+                return True
+            if kind == "eq" and g.t and (all(c > 0 for c in g.t.values()) and g.cval() > 0 or all(c < 0 for c in g.t.values()) and g.cval() < 0):
+                return True
+        return False
     @property
     def dropped(s):
         """dropped facts that could make a refuting assignment infeasible (upper bounds / equalities)"""
@@ -556,6 +573,8 @@ class Sym:
                             continue
                     Q = P.fork()
                     Q.sub.add_cond(c, "branch")
+                    if Q.sub.contradictory():
+                        continue
                     tgt = (t["otherwise"] if 0 in tm else tm.get(1)) if truth else tm.get(0, t["otherwise"])
                     if tgt is None:
                         continue
@@ -775,6 +794,7 @@ def r_rawbounds(f):
         ok_n = bad_n = und_n = 0
         seen_bad = set()
         seen_und = set()
+        proved = []
         for (kind, what, T, span), sub in sym.obls:
             if kind == "undecided":
                 und_n += 1
@@ -786,6 +806,8 @@ def r_rawbounds(f):
             nsite += 1
             if sg == "nonneg":
                 ok_n += 1
+                if len(proved) < 10:
+                    proved.append("%s  -- slack after substituting the path facts: %r" % (what, Tn))
             elif sg == "neg" and not sub.dropped:
                 bad_n += 1
                 desc = re.sub(r"^\[[^\]]*\] ?", "", what)
@@ -796,7 +818,7 @@ def r_rawbounds(f):
             else:
                 und_n += 1
                 seen_und.add("%s (slack %r%s)" % (what[:110], Tn, ", facts dropped" if sub.dropped else ""))
-        R.inst(b.ident, "%d raw-access bound obligations over %d entry cases: %d discharged, %d refuted, %d undecided" % (ok_n + bad_n + und_n, len(cases), ok_n, bad_n, und_n), bad_n == 0)
+        R.inst(b.ident, "%d raw-access bound obligations over %d entry cases: %d discharged, %d refuted, %d undecided" % (ok_n + bad_n + und_n, len(cases), ok_n, bad_n, und_n), bad_n == 0, detail=proved)
         for u in sorted(seen_und)[:6]:
             R.inconc(b.ident, "undecided: " + u)
     R.require_floor(nfun, 3, "functions with raw element accesses")
